@@ -229,6 +229,36 @@ func main() {
 			fmt.Fprintln(os.Stderr, err)
 			return
 		}
+		if bytes.HasPrefix(b, []byte("go test fuzz v1")) {
+			// a saved native-fuzz input: fuzz-<Target>-<name>
+			target := ""
+			for _, fz := range plan.Fuzz {
+				if strings.Contains(filepath.Base(os.Args[3]), fz.Target) {
+					target = fz.Target
+				}
+			}
+			if target == "" {
+				fmt.Fprintln(os.Stderr, "cannot tell the fuzz target from the file name")
+				return
+			}
+			cdir := filepath.Join(harness, plan.Pkg, "testdata", "fuzz", target)
+			os.MkdirAll(cdir, 0o755)
+			name := fmt.Sprintf("replay-%d", os.Getpid())
+			os.WriteFile(filepath.Join(cdir, name), b, 0o644)
+			defer os.Remove(filepath.Join(cdir, name))
+			rc := exec.Command("go", "test", "-tags", "verif", "-count=1", "-run", "^"+target+"$/^"+name+"$", "./"+plan.Pkg)
+			rc.Dir = harness
+			rc.Env = baseEnv
+			out, err := rc.CombinedOutput()
+			os.Stdout.Write(out)
+			if err != nil && bytes.Contains(out, []byte("FAIL")) {
+				fmt.Printf("VIOLATION property=%s replay=%s\n", id, os.Args[3])
+				code = 1
+				return
+			}
+			code = 0
+			return
+		}
 		os.WriteFile(filepath.Join(rd, "case.json"), b, 0o644)
 		cmd := exec.Command(bin, "-test.run", "^TestReplay$", "-test.v")
 		cmd.Dir = filepath.Join(harness, plan.Pkg)
@@ -514,9 +544,19 @@ func main() {
 			note, crashers := runFuzz(harness, plan.Pkg, fz, baseEnv, tmp)
 			fuzzNotes = append(fuzzNotes, note)
 			for _, c := range crashers {
+				b, _ := os.ReadFile(c)
+				os.Remove(c)
+				if m := regexp.MustCompile(`sig=([A-Za-z0-9_:.\-]+)`).FindStringSubmatch(fuzzOut[c]); m != nil {
+					if k := isKnown(m[1]); k != nil {
+						if !knownPrinted[m[1]] {
+							fmt.Printf("KNOWN-FINDING: property=%s %s [sig=%s]\n", id, k.What, m[1])
+							knownPrinted[m[1]] = true
+						}
+						continue
+					}
+				}
 				os.MkdirAll(foundDir, 0o755)
 				dst := filepath.Join(foundDir, "fuzz-"+fz.Target+"-"+filepath.Base(c))
-				b, _ := os.ReadFile(c)
 				os.WriteFile(dst, b, 0o644)
 				fmt.Printf("VIOLATION property=%s replay=%s\n", id, dst)
 				violations = append(violations, dst)
@@ -732,6 +772,9 @@ func (m *merge) evidence(id, tier string, seed int64, plan Plan, wall float64, v
 
 // ---------------------------------------------------------------------------
 
+// fuzzOut: output of the failing re-run of each confirmed crasher (signature lookup).
+var fuzzOut = map[string]string{}
+
 func runFuzz(harness, pkg string, fz Fuzz, env []string, tmp string) (string, []string) {
 	// `go test -fuzz` needs the package sources; crashers land in testdata/fuzz/<Target>/ of the package.
 	pdir := filepath.Join(harness, pkg)
@@ -742,7 +785,10 @@ func runFuzz(harness, pkg string, fz Fuzz, env []string, tmp string) (string, []
 			before[e.Name()] = true
 		}
 	}
-	_ = tmp // the fuzz corpus cache stays in GOCACHE (go test owns -test.fuzzcachedir)
+	// workers leave the input they are running in $VERIF_FUZZ_TRACE (pbt.FuzzTrace)
+	trace := filepath.Join(tmp, "fuzztrace-"+fz.Target)
+	os.MkdirAll(trace, 0o755)
+	env = append(append([]string{}, env...), "VERIF_FUZZ_TRACE="+trace)
 	ctx, cancel := context.WithTimeout(context.Background(), fz.Time+5*time.Minute)
 	defer cancel()
 	cmd := exec.CommandContext(ctx, "go", "test", "-tags", "verif", "-run", "^$", "-fuzz", "^"+fz.Target+"$", "-fuzztime", fz.Time.String(), "./"+pkg)
@@ -750,11 +796,56 @@ func runFuzz(harness, pkg string, fz Fuzz, env []string, tmp string) (string, []
 	cmd.Env = env
 	out, err := cmd.CombinedOutput()
 	so := string(out)
-	var crashers []string
+	var fresh []string
 	if es, e2 := os.ReadDir(cdir); e2 == nil {
 		for _, e := range es {
 			if !before[e.Name()] {
-				crashers = append(crashers, filepath.Join(cdir, e.Name()))
+				fresh = append(fresh, filepath.Join(cdir, e.Name()))
+			}
+		}
+	}
+	// A saved input is a violation only if it fails when re-run alone: the engine blames an arbitrary
+	// input when a worker process dies or stalls (machine load, a panic in a foreign goroutine). When
+	// the blamed input passes, the inputs the workers were really running are tried instead.
+	reruns := func(file string) bool {
+		fuzzOut[file] = ""
+		for i := 0; i < 3; i++ {
+			c2, cancel2 := context.WithTimeout(context.Background(), 5*time.Minute)
+			rc := exec.CommandContext(c2, "go", "test", "-tags", "verif", "-count=1", "-run", "^"+fz.Target+"$/^"+filepath.Base(file)+"$", "./"+pkg)
+			rc.Dir = harness
+			rc.Env = env
+			o, e := rc.CombinedOutput()
+			timedOut := c2.Err() == context.DeadlineExceeded
+			cancel2()
+			if e != nil && !timedOut && strings.Contains(string(o), "FAIL") {
+				fmt.Println(tail(string(o), 30))
+				fuzzOut[file] = string(o)
+				return true
+			}
+		}
+		return false
+	}
+	var crashers []string
+	unreproduced := 0
+	for _, c := range fresh {
+		if reruns(c) {
+			crashers = append(crashers, c)
+			continue
+		}
+		unreproduced++
+		os.Remove(c)
+	}
+	if unreproduced > 0 {
+		if es, e2 := os.ReadDir(trace); e2 == nil {
+			for i, e := range es {
+				b, _ := os.ReadFile(filepath.Join(trace, e.Name()))
+				cand := filepath.Join(cdir, fmt.Sprintf("traced-%d", i))
+				os.WriteFile(cand, b, 0o644)
+				if reruns(cand) {
+					crashers = append(crashers, cand)
+				} else {
+					os.Remove(cand)
+				}
 			}
 		}
 	}
@@ -763,7 +854,9 @@ func runFuzz(harness, pkg string, fz Fuzz, env []string, tmp string) (string, []
 		execs = m[len(m)-1][1]
 	}
 	note := fmt.Sprintf("%s: %s, execs=%s, new crashers=%d", fz.Target, fz.Time, execs, len(crashers))
-	if err != nil && len(crashers) == 0 {
+	if unreproduced > 0 {
+		note += fmt.Sprintf("; %d input(s) blamed by the engine passed 3 re-runs alone, as did every input a worker was running (worker death or stall, inconclusive): %s", unreproduced, firstLines(tail(so, 8), 8))
+	} else if err != nil && len(crashers) == 0 {
 		note += " (fuzz run ended with error: " + firstLines(tail(so, 5), 5) + ")"
 	}
 	if len(crashers) > 0 {
